@@ -75,6 +75,8 @@ class Explorer:
                tuple(clock), atom)
         if run.tests > 1:
             self.ck.nontrivial(key)
+        if strategy == "minimize-collapse-brace" and not replay and not extra:
+            extra = atom + " "
         if model and run.exc != "CapHit":
             used = "".join(a for _, _, a in run.seen)
             self.lines.append(model_line(strategy, cfg, ctx["tc"], file0, used, clock, extra=extra,
@@ -470,4 +472,34 @@ def make_oracle_c13(f_of):
                     ck.violation(f"minimize-balanced stopped although deleting {what} ({c!r}) is not known "
                                  f"to be rejected", replay_doc(ctx, run, atom=i))
                     return
+    return orc
+
+
+# ------------------------------------------------------------------ C05 oracle
+def make_oracle_c05():
+    from props.c08 import reference as marker_reference
+
+    def orc(ck, ctx, run):
+        ref = marker_reference(ctx["file0"])
+        if ref is None or not ref[0]:
+            return
+        P, region, S = ref
+        files = [(f"test {k}", d) for k, d, _ in run.seen]
+        if run.exc is None:
+            files.append(("final file", run.final))
+        for what, d in files:
+            bad = None
+            if not d.startswith(P):
+                bad = "does not begin with the original bytes through the DDBEGIN line"
+            elif not d.endswith(S) or len(d) < len(P) + len(S):
+                bad = "does not end with the original bytes from the DDEND line on"
+            elif ctx["atom"] == "char" and region and d[len(d) - len(S) - 1:len(d) - len(S)] != region[-1:]:
+                bad = "char mode: the byte before the DDEND line changed"
+            if bad:
+                key = None
+                if ctx["strategy"] == "minimize-collapse-brace" and ctx["atom"] != "line":
+                    key = "collapse-reload-not-line"
+                ck.violation(f"{ctx['strategy']}/{ctx['atom']}: {what} {d!r} {bad} (P={P!r}, S={S!r})",
+                             replay_doc(ctx, run, what=what), key=key)
+                return
     return orc
